@@ -380,6 +380,20 @@ def classify(res, scs, mapped, results):
             for pid_, n in (sc.get('pubcloses') or {}).items():
                 if int(pid_) < 8 and bool(n) != bool(pubs[int(pid_)]) and not _cut(sc):
                     res.mismatches.append(dict(kind='publisher %s closed: model %s implementation %s' % (pid_, pubs[int(pid_)], n), case=case))
+        # Stop() is asynchronous: a Stop called after Started() was observed must return although somebody holds handlersLock
+        sobs = set()
+        for e in sc['events']:
+            if e['p'] == 'api.scenario.end': break
+            if e['p'] == 'api.started_obs': sobs.add(e['k'][0])
+            if e['p'] == 'api.stop.blocked' and e['k'][1] in sobs:
+                res.violations.append(dict(signature='C10/stop-after-started-blocks', what='Stop() called after Started() was observed did not return while another goroutine was inside handlersLock', case=case))
+        # Run returns an error only when a Subscribe failed (a cancelled Run context makes the router close itself, Run returns nil)
+        first_run = None; subfailed = False
+        for t_, e in m.hist:
+            if t_.startswith('ARunCall') and first_run is None: first_run = t_.split()[1]
+            if t_.startswith('ASubscribe') and t_.endswith('false'): subfailed = True
+            if first_run is not None and t_ == 'ARunRet %s false' % first_run and not subfailed:
+                res.violations.append(dict(signature='C10/run-returned-error-without-failed-subscribe', what='Run returned an error although no Subscribe failed (e.g. its context was already cancelled)', case=case))
         for e in sc['events']:
             if e['p'] == 'api.panic':
                 res.violations.append(dict(signature='C10/router-call-panicked', what='%s panicked: %s' % tuple(e['k'][:2]), case=case))
